@@ -6,6 +6,7 @@ import (
 	"crypto/x509"
 	"errors"
 	"fmt"
+	"net"
 	"net/url"
 	"os"
 	"path/filepath"
@@ -188,6 +189,32 @@ func (s *vSim) runC15Scenario(sc vScenario, ly *vC15Layout, dir string, checks *
 			}
 		}
 	}
+	// 3b. seed-dependent traffic: random queries of every type from random peers, random payload deliveries
+	for i := 0; i < 40; i++ {
+		p := 1 + r.Intn(nPeers)
+		forged := [2]int{7, 10 + i}
+		switch r.Intn(6) {
+		case 0:
+			s.exec(&vOp{Op: "inject", From: p, To: 0, Msg: &vMsg{T: "pq", Ref: ly.priv[r.Intn(len(ly.priv))]}})
+		case 1:
+			refs := []int{ly.priv[r.Intn(len(ly.priv))], ly.trunk + r.Intn(ly.L), ly.priv[r.Intn(len(ly.priv))]}
+			s.exec(&vOp{Op: "inject", From: p, To: 0, Msg: &vMsg{T: "lq", C: &forged, Refs: refs}})
+		case 2:
+			a := uint32(r.Intn(12))
+			s.exec(&vOp{Op: "inject", From: p, To: 0, Msg: &vMsg{T: "rq", C: &forged, A: a, B: a + 1 + uint32(r.Intn(40))}})
+		case 3:
+			s.exec(&vOp{Op: "inject", From: p, To: 0, Msg: &vMsg{T: "state", C: &forged, XSet: [][2]int{{ly.trunk, ly.trunk + r.Intn(ly.L)}}, LC: uint32(r.Intn(30))}})
+		case 4:
+			to := []int{1, 2, 4, 5}[r.Intn(4)]
+			idx := ly.priv[r.Intn(len(ly.priv))]
+			d := s.u.payID[s.u.txs[ly.priv[r.Intn(len(ly.priv))]].ph]
+			s.exec(&vOp{Op: "inject", From: 0, To: to, Msg: &vMsg{T: "pl", Ref: idx, Data: d}})
+		default:
+			if len(s.pending) > 0 {
+				s.exec(&vOp{Op: "deliver", M: s.pending[r.Intn(len(s.pending))]})
+			}
+		}
+	}
 	// 4. a listed node creates / receives a private transaction: the payload query broadcast
 	s.exec(&vOp{Op: "observe"})
 	return s.verdict("c15", first, 0, 0, startDiff, startSets, []string{sc.Name})
@@ -211,17 +238,20 @@ func (r vSvcResolver) ResolveEx(_ ssi.URI, _ int, _ int, _ map[string]*did.Docum
 	return r.Resolve(ssi.URI{}, 0)
 }
 
-func (s *vSim) authnCases() {
+func (s *vSim) authnCases(only string) {
 	certs := map[string]*x509.Certificate{
 		"none":     nil,
 		"node":     {DNSNames: []string{"node.example.com"}},
 		"wildcard": {DNSNames: []string{"*.example.com"}},
 		"two":      {DNSNames: []string{"a.example.com", "b.example.org"}},
 		"empty":    {},
+		"ip":       {IPAddresses: []net.IP{net.ParseIP("127.0.0.1")}, DNSNames: []string{"localhost"}},
 	}
-	certOrder := []string{"none", "node", "wildcard", "two", "empty"}
+	certOrder := []string{"none", "node", "wildcard", "two", "empty", "ip"}
 	endpoints := []interface{}{"grpc://node.example.com:5555", "grpc://evil.example.net:5555", "grpc://b.example.org:5555", "grpc://x.y.example.com:5555",
-		"grpc://NODE.example.com:5555", "node.example.com:5555", "grpc://%zz", "", map[string]interface{}{"a": "b"}, "grpc://a.example.com", nil}
+		"grpc://NODE.example.com:5555", "node.example.com:5555", "grpc://%zz", "", map[string]interface{}{"a": "b"}, "grpc://a.example.com", nil,
+		"grpc://sub.node.example.com:5555", "grpc://x.y.node.example.com:5555", "grpc://node.example.com.:5555", "grpc://127.0.0.1:5555", "grpc://[::1]:5555",
+		"grpc://localhost:5555", "grpc://example.com:5555", "node.example.com"}
 	for _, cn := range certOrder {
 		for ei, ep := range endpoints {
 			var res vSvcResolver
@@ -229,6 +259,9 @@ func (s *vSim) authnCases() {
 				res.err = errors.New("service not found")
 			} else {
 				res.endpoint = ep
+			}
+			if only != "" && only != fmt.Sprintf("%s/%d", cn, ei) {
+				continue
 			}
 			claimed := did.MustParseDID("did:nuts:claimed")
 			peer := transport.Peer{ID: "p", Address: "addr", Certificate: certs[cn]}
@@ -286,7 +319,7 @@ func TestVerifC15(t *testing.T) {
 	build(s, "c15", false)
 	tier := os.Getenv("VERIF_TIER")
 	s.emitUniverse("c15", seed, tier)
-	s.authnCases()
+	s.authnCases("")
 	var checks []vStoreCheck
 	scs := ly.scenarios(s.u)
 	reps := 1
